@@ -14,8 +14,8 @@ echo "seeded change $id (worktree $wt)"
 echo "--- go build + unit tests with the change"
 go build -o $wt/goit-mut . && go test -vet=off -count=1 ./... 2>&1 | grep -v "no test files"
 echo "--- demo on the unchanged build / the changed build"
-git stash -q && go build -o $wt/goit-orig . ; git stash pop -q
-sh demo.sh $wt/goit-orig >/dev/null 2>&1; echo "demo(orig) exit=$?"
+(cd /repo && go build -o /tmp/goit-orig-$id .)
+sh demo.sh /tmp/goit-orig-$id >/dev/null 2>&1; echo "demo(orig) exit=$?"; rm -f /tmp/goit-orig-$id
 sh demo.sh $wt/goit-mut >/dev/null 2>&1; echo "demo(mut) exit=$?"
 copy=/tmp/verif-seed-$id
 mkdir -p $copy; rsync -a --delete --exclude .git --exclude replays --exclude evidence --exclude seeded /verif/ $copy/
